@@ -316,3 +316,40 @@ m('M27c', 'C10', 'C10.item-linear-pop', 'queue.h',
                 } else {""", """                    p();
                     lk.unlock();
                 } else {""", 'blocked push completed under the lock')
+m('M28', 'C11', 'C11.enqueue', 'thread_pool.h',
+  """        if (!_exit) {
+            _queue.push(std::move(fn));
+            _cond.notify_one();
+        }""", """        _queue.push(std::move(fn));
+        _cond.notify_one();""", 'enqueue after exit')
+m('M29', 'C11', 'C11.closure-owns-waiter', 'thread_pool.h',
+  """            auto fin = [](co_awaiter *x) {
+                //resume coroutine (in queue if possible)
+                //we will throw exception when await_resume()
+                coro_queue::resume(x->_h);
+            };""", """            auto fin = [](co_awaiter *x) {
+                (void)x;
+            };""", 'deleter does not resume')
+m('M30', 'C11', 'C11.stop', 'thread_pool.h',
+  "            _cond.notify_all();\n            std::swap(tmp, _threads);", "            _cond.notify_one();\n            std::swap(tmp, _threads);", 'stop notifies one')
+m('M30b', 'C11', 'C11.worker', 'thread_pool.h',
+  """            if (_exit) break;
+            auto h = std::move(_queue.front());""", """            auto h = std::move(_queue.front());""", 'worker ignores exit after wait')
+m('M30c', 'C11', 'C11.cancel-observable', 'thread_pool.h',
+  "            if (_h) throw await_canceled_exception();", "            (void)_h;", 'cancel not observable')
+m('M30d', 'C11', 'C11.run-once', 'thread_pool.h',
+  """               awtptr->_h = nullptr;
+               //release pointer, as we don't need to call the deleter
+               awtptr.release();
+
+               coro_queue::resume(h);""", """               awtptr->_h = nullptr;
+               coro_queue::resume(h);""", 'guard not released: resumed twice')
+m('M30e', 'C11', 'C11.stop', 'thread_pool.h',
+  """            if (t.get_id() == me) {
+                t.detach();
+                //mark this thread as ordinary thread
+                _current = nullptr;
+            }
+            else {
+                t.join();
+            }""", """            t.join();""", 'self join')
